@@ -15,6 +15,9 @@
 //	wo I K AT N    vI.Without(tuple)  (as NewWithoutExpr: an untrue result is None)
 //	cat I J        rel.Concatenate(vI, vJ)
 //	un I J         rel.Union(vI, vJ)
+//	rr n,…;v,…;…   a relation built by rel.NewSet from generic tuples (names; then one row per field)
+//	j OP I J       the join expression node of OP (<&> <-> -&- --- -&> <&- --> <--) evaluated on vI, vJ
+//	tw I n=v,…     vI.With(rel.NewTuple(…));   two I n=v,…   vI.Without(…)
 //
 // Path A runs the steps one by one.  After EVERY step the canonical text (hlib.Canon: Enumerator walks only)
 // of EVERY earlier value is recomputed and compared with the snapshot taken when that value was created.
@@ -38,6 +41,7 @@ import (
 
 	"github.com/arr-ai/arrai/rel"
 	"github.com/arr-ai/arrai/syntax"
+	"github.com/arr-ai/wbnf/parser"
 
 	"verif/harness/hlib"
 )
@@ -69,9 +73,75 @@ func (h *hist) operand(s string) (rel.Set, bool) {
 	return set, ok
 }
 
+var joinCtors = map[string]func(parser.Scanner, rel.Expr, rel.Expr) rel.Expr{
+	"<&>": rel.NewJoinExpr, "<->": rel.NewComposeExpr, "-&-": rel.NewJoinCommonExpr, "---": rel.NewJoinExistsExpr,
+	"-&>": rel.NewRightMatchExpr, "<&-": rel.NewLeftMatchExpr, "-->": rel.NewRightResidueExpr, "<--": rel.NewLeftResidueExpr,
+}
+
+func tupleOfFields(spec string) rel.Value {
+	var attrs []rel.Attr
+	for _, kv := range strings.Split(spec, ",") {
+		p := strings.SplitN(kv, "=", 2)
+		n, _ := strconv.Atoi(p[1])
+		attrs = append(attrs, rel.NewAttr(p[0], rel.NewNumber(float64(n))))
+	}
+	return rel.NewTuple(attrs...)
+}
+
 func (h *hist) runAPI(api string) (v rel.Value, ok bool) {
 	f := strings.Fields(api)
 	switch f[0] {
+	case "rr":
+		if len(f) != 2 {
+			return nil, false
+		}
+		parts := strings.Split(f[1], ";")
+		names := strings.Split(parts[0], ",")
+		var tuples []rel.Value
+		for _, row := range parts[1:] {
+			var attrs []rel.Attr
+			for i, c := range strings.Split(row, ",") {
+				n, _ := strconv.Atoi(c)
+				attrs = append(attrs, rel.NewAttr(names[i], rel.NewNumber(float64(n))))
+			}
+			tuples = append(tuples, rel.NewTuple(attrs...))
+		}
+		set, err := rel.NewSet(tuples...)
+		if err != nil {
+			return nil, false
+		}
+		return set, true
+	case "j":
+		if len(f) != 4 {
+			return nil, false
+		}
+		a, ok1 := h.operand(f[2])
+		b, ok2 := h.operand(f[3])
+		ctor := joinCtors[f[1]]
+		if !ok1 || !ok2 || ctor == nil {
+			return nil, false
+		}
+		r, err := ctor(*parser.NewScanner(""), a, b).Eval(hlib.NewCtx(), rel.Scope{})
+		if err != nil {
+			return nil, false
+		}
+		return r, true
+	case "tw", "two":
+		if len(f) != 3 {
+			return nil, false
+		}
+		x, ok := h.operand(f[1])
+		if !ok {
+			return nil, false
+		}
+		t := tupleOfFields(f[2])
+		if f[0] == "tw" {
+			return x.With(t), true
+		}
+		if s := x.Without(t); s.IsTrue() {
+			return s, true
+		}
+		return rel.None, true
 	case "r":
 		if len(f) < 3 {
 			return nil, false
